@@ -102,6 +102,7 @@ type Faults struct {
 	ColdStart   int64 `json:"cold_start"`
 	TimerFire   int64 `json:"timer_fire"`
 	GC          int64 `json:"gc"`
+	Finalizer   int64 `json:"finalizer_run"`
 }
 
 func (f *Faults) Add(o *Faults) {
@@ -116,6 +117,7 @@ func (f *Faults) Add(o *Faults) {
 	f.ColdStart += o.ColdStart
 	f.TimerFire += o.TimerFire
 	f.GC += o.GC
+	f.Finalizer += o.Finalizer
 }
 
 // RunResult is what one run produced.
@@ -328,6 +330,7 @@ func (s *Sim) Run(spec *RunSpec) *RunResult {
 
 	bound := 1000*spec.Est + 1000000
 	fairAt := 2*spec.Est + 2000
+	starveGC := 0
 	graceEnd := int64(-1) // step at which library goroutines stop being scheduled after the last caller returned
 	for {
 		if s.runSteps() > bound {
@@ -364,6 +367,13 @@ func (s *Sim) Run(spec *RunSpec) *RunResult {
 				break
 			}
 			if s.advanceToNextWake() {
+				continue
+			}
+			if FinalizersSeen() && starveGC < 3 {
+				// callers may be waiting for resources that only a finalizer returns:
+				// a real process would collect sooner or later
+				starveGC++
+				s.forceGC()
 				continue
 			}
 			s.res.Deadlock = true
@@ -1243,6 +1253,21 @@ func (s *Sim) forceGC() {
 	s.res.Faults.GC++
 	s.res.Trace.Segs = append(s.res.Trace.Segs, [2]int64{-2, 1})
 	GCFunc()
+	if FinalizersSeen() {
+		// finalizers the collection made due run as tasks of this run
+		waitFinalizers()
+		for _, f := range takeFinalizers() {
+			f := f
+			nt := &Task{parent: -1, resume: make(chan reply)}
+			nt.body = func(*Task) { f() }
+			nt.ID = len(s.tasks)
+			nt.prio = s.rng.Intn(1 << 20)
+			s.tasks = append(s.tasks, nt)
+			s.live = append(s.live, nt)
+			s.res.Faults.Finalizer++
+			go taskMain(nt)
+		}
+	}
 }
 
 func (s *Sim) maybeGC() {
